@@ -24,3 +24,7 @@ Proof.
   Ltac Zify.zify_post_hook ::= Z.to_euclidean_division_equations.
   lia.
 Qed.
+
+(* the model's length extension saturates, as the current source does *)
+Lemma gen_ext_saturates : GenLz4.ext_saturates = 1%N.
+Proof. reflexivity. Qed.
